@@ -178,11 +178,13 @@ class MinGenSet():
                 var_type="integer"
             )
 
+        # a product multiplicity * generator is bounded by the number it contributes to, which may exceed the total
+        pi_ub = max([self.total] + list(self.numbers))
         self.pi_vars = self.solver.add_variables(
             self.x_indexes, 
             name_prefix="pi", 
             lb=0, 
-            ub=self.total, 
+            ub=pi_ub, 
             var_type="integer" if self.weight_type == int else "continuous"
         )
 
@@ -219,7 +221,7 @@ class MinGenSet():
                             continuous_var=self.genset_vars[(i)],
                             product_var=self.pi_vars[(i, j)],
                             lb=0,
-                            ub=self.total,
+                            ub=pi_ub,
                             name=f"pi_i={i}_j={j}",
                         )
 
